@@ -1,5 +1,6 @@
 // C17 helpers: field-wise comparison of configuration values, recursive rebuild from reported configurations.
 #pragma once
+#include <cstring>
 #include <sstream>
 #include <variant>
 #include <vp/stackcheck.hpp>
@@ -42,6 +43,50 @@ inline bool cfg_equal(const C & a, const C & b)
 template <class C>
 requires requires(const C & c) { c.salt; }
 inline bool cfg_equal(const C & a, const C & b)
+{
+    return a.salt == b.salt;
+}
+
+// bitwise variants (configuration values such as NaN, -0.0 have to come back as they went in)
+template <class T>
+inline bool same_bits(const T & a, const T & b)
+{
+    return std::memcmp(&a, &b, sizeof(T)) == 0;
+}
+template <class T, std::size_t N>
+inline bool cfg_same_bits(const covfie::array::array<T, N> & a, const covfie::array::array<T, N> & b)
+{
+    for (std::size_t i = 0; i < N; ++i)
+        if (!same_bits(a[i], b[i])) return false;
+    return true;
+}
+inline bool cfg_same_bits(const std::monostate &, const std::monostate &)
+{
+    return true;
+}
+template <std::size_t N, class T, class I>
+inline bool cfg_same_bits(const covfie::algebra::affine<N, T, I> & a, const covfie::algebra::affine<N, T, I> & b)
+{
+    for (std::size_t i = 0; i < N; ++i)
+        for (std::size_t j = 0; j < N + 1; ++j)
+            if (!same_bits(a(i, j), b(i, j))) return false;
+    return true;
+}
+template <class C>
+requires requires(const C & c) { c.min; c.max; c.default_value; }
+inline bool cfg_same_bits(const C & a, const C & b)
+{
+    return cfg_same_bits(a.min, b.min) && cfg_same_bits(a.max, b.max) && cfg_same_bits(a.default_value, b.default_value);
+}
+template <class C>
+requires(requires(const C & c) { c.min; c.max; } && !requires(const C & c) { c.default_value; })
+inline bool cfg_same_bits(const C & a, const C & b)
+{
+    return cfg_same_bits(a.min, b.min) && cfg_same_bits(a.max, b.max);
+}
+template <class C>
+requires requires(const C & c) { c.salt; }
+inline bool cfg_same_bits(const C & a, const C & b)
 {
     return a.salt == b.salt;
 }
